@@ -4,6 +4,7 @@ from __future__ import annotations
 import ast
 
 from . import gfi, infer
+from ..model import AnalysisError
 from .util import CORE, mk_ev, mk_lin, summarize, func_loc, short, spine_cases, items, N, C
 from ..symeval import subterms
 
@@ -70,13 +71,40 @@ def get_args_format(ctx, rule="SIB-get_args"):
             ctx.ok(rule, f"core.{name}.get_args", short(r, ev, 120))
         else:
             ctx.bad(rule, f"core.{name}.get_args", "returns (args, kwargs)", f"get_args returns {short(r, ev, 200)}, consumers unpack it as (args, kwargs)", func_loc(ctx, dotted))
-    # consumers
-    kind, node, mod, owner = ctx.p.get_function(CORE + "Trace.update")
-    src = ast.unparse(node)
-    if "*original_args[0], **original_args[1]" in src:
-        ctx.ok(rule, "core.Trace.update", "re-uses the recorded (args, kwargs)")
+    trace_update_reuses_args(ctx, rule)
+
+
+def trace_update_reuses_args(ctx, rule="SIB-get_args"):
+    """Trace.update(x) without arguments re-runs update with the trace's own recorded (args, kwargs); with arguments it forwards them.
+    Decided by evaluating the method's value on a finite model (a trace whose get_args() is ((a0, a1), {'k': v}))."""
+    from ..absint import Model, Unknown, Opq
+    ev = mk_ev(ctx)
+    dotted = CORE + "Trace.update"
+    s = summarize(ctx, ev, dotted)
+    kind, node, mod, owner = ctx.p.get_function(dotted)
+    SELF_, X_, A_, K_ = ("param", "self"), ("param", "x"), ("param", "args"), ("param", "kwargs")
+    a0, a1, v, gf = Opq("a0"), Opq("a1"), Opq("v"), Opq("gen_fn")
+    problems = []
+    for given_args, given_kw, label in (((), {}, "no arguments"), ((Opq("b0"),), {}, "new positional arguments"), ((), {"k": Opq("w")}, "new keyword arguments")):
+        m = Model(evaluator=ev)
+        m.bind(A_, given_args)
+        m.bind(K_, given_kw)
+        m.bind(("call", ("attr", SELF_, "get_args"), (), ()), ((a0, a1), {"k": v}))
+        m.bind(("call", ("attr", SELF_, "get_gen_fn"), (), ()), gf)
+        try:
+            got = m.ev(s.ret)
+        except Unknown as e:
+            raise AnalysisError(f"core.Trace.update: cannot evaluate ({label}): {e}")
+        if given_args or given_kw:
+            want = Opq("call", Opq("attr", gf, "update"), (m.ev(SELF_), m.ev(X_)) + tuple(given_args), tuple(sorted(given_kw.items())))
+        else:
+            want = Opq("call", Opq("attr", gf, "update"), (m.ev(SELF_), m.ev(X_), a0, a1), (("k", v),))
+        if got != want:
+            problems.append(f"[{label}] calls {got!r}; expected {want!r}")
+    if problems:
+        ctx.bad(rule, "core.Trace.update", "re-uses recorded (args, kwargs)", "; ".join(problems), ctx.loc(mod, node))
     else:
-        ctx.bad(rule, "core.Trace.update", "re-uses recorded (args, kwargs)", "Trace.update no longer forwards *args[0], **args[1] of the recorded arguments", ctx.loc(mod, node))
+        ctx.ok(rule, "core.Trace.update", "without arguments: gen_fn.update(self, x, *recorded args, **recorded kwargs); with arguments: forwards them")
 
 
 def trace_field_ownership(ctx, rule="OWN-trace-fields"):
